@@ -507,7 +507,7 @@ def main(argv):
                      "SetSkip / SetLimit / AdoptSortFields / SetPredicate and unrelated queries in between; every execution is compared with the "
                      "specification of the query as the mutators left it, and the query object must keep asking for the same page "
                      "(stats: program_*). Cursor providers: 3 (thorough 16) datasets whose rows carry 0..4 tag values (created through "
-                     "Store.Create: the set index is the library's; a hubs store lists the carriers of every tag); QueryWithCursorC over 49 "
+                     "Store.Create: the set index is the library's; a hubs store lists the carriers of every tag); QueryWithCursorC over 40 "
                      "providers - entities bucket, IteratorMatchingAnyOf / AllOf with 0,1,2,3 values (a value twice, a value nobody carries), "
                      "index value cursor, GetRelatedEntitiesCursor, caller-built ast.TreeSet (unordered insertion, repetitions), "
                      "NewUnionSetCursor (2, 3 sides, tree + value), NewFilteredCursor (over a value cursor / an AnyOf cursor) - x default order, "
